@@ -50,9 +50,10 @@ const (
 	wkPipe
 	wkCond
 	wkFlag
+	wkChan
 )
 
-var wkNames = [...]string{"-", "mutex", "rlock", "waitgroup", "once", "timer", "join", "pipe", "cond", "flag"}
+var wkNames = [...]string{"-", "mutex", "rlock", "waitgroup", "once", "timer", "join", "pipe", "cond", "flag", "channel"}
 
 type taskState int32
 
@@ -170,6 +171,7 @@ type Run struct {
 	mapRanges int64
 	mapPerms  int64
 	ioIndex   int64
+	progress  int64 // bumped by every scheduling event that is not a channel re-try
 }
 
 var (
@@ -349,6 +351,7 @@ func (r *Run) isAborting() bool { return r.aborting }
 func (r *Run) exitTask(t *Task) {
 	t.state = tsDone
 	t.wk = wkNone
+	r.progress++
 	r.ev("exit", 0, 0)
 	if r.aborting {
 		r.abortChain()
@@ -444,6 +447,8 @@ func (r *Run) ready(t *Task) bool {
 		return (*CondModel)(t.wobj).signalled > t.warg
 	case wkFlag:
 		return *(*int32)(t.wobj) != 0
+	case wkChan:
+		return r.progress > t.warg
 	}
 	return false
 }
@@ -593,6 +598,7 @@ func (r *Run) point(kind string, a int64) {
 	}
 	self := r.tasks[r.cur]
 	r.ev(kind, a, 0)
+	r.progress++
 	r.step()
 	switch r.cfg.Strategy {
 	case StratRunToBlock:
@@ -638,6 +644,9 @@ func (r *Run) block(wk waitKind, obj unsafe.Pointer, arg int64) {
 	self.wobj = obj
 	self.warg = arg
 	r.ev("block", int64(wk), 0)
+	if wk != wkChan {
+		r.progress++
+	}
 	r.step()
 	for {
 		next := r.pick(nil)
@@ -755,6 +764,7 @@ func Yield(site uint32) {
 	}
 	self := r.tasks[r.cur]
 	r.ev("preempt", int64(site), 0)
+	r.progress++
 	r.step()
 	next := r.pick(self)
 	if next != self {
